@@ -419,10 +419,13 @@ def case_strategy(draw, tier='quick'):
         rs['nodes'] = nodes[:2]
     if rs['links'] == 'some':
         rs['links'] = [l[1] for l in links[:3]]
-    return {'units': draw(st.sampled_from(UNITS)), 'units_via': draw(st.sampled_from(['arg', 'arg', 'option'])),
+    case = {'units': draw(st.sampled_from(UNITS)), 'units_via': draw(st.sampled_from(['arg', 'arg', 'option'])),
             'version': draw(st.sampled_from([2.2, 2.2, 2.0])), 'opts': opts, 'patterns': pats, 'curves': curves,
             'junctions': junctions, 'tanks': tanks, 'reservoirs': reservoirs, 'pipes': pipes, 'pumps': pumps,
             'valves': valves, 'sources': sources, 'controls': controls, 'rules': rules}
+    if draw(st.integers(0, 3)) == 0:
+        case['prewrite'] = {'units': draw(st.sampled_from(UNITS))}
+    return case
 
 
 def strategy(tier='quick'):
@@ -1061,7 +1064,8 @@ def _text_diff(t2, t3):
 
 
 def tags_of(case):
-    t = ['units:' + case['units'], 'version:%s' % case['version'], 'units_via:' + case['units_via'],
+    t = (['history:written_before_in_other_units'] if case.get('prewrite') else []) + \
+        ['units:' + case['units'], 'version:%s' % case['version'], 'units_via:' + case['units_via'],
          'headloss:' + case['opts']['hyd']['headloss'], 'quality:' + case['opts']['qual']['parameter'],
          'demand_model:' + ('PDD' if 'pmin_file' in case['opts']['hyd'] else 'DD')]
     if case['opts']['qual'].get('units') == 'ug/L':
@@ -1166,10 +1170,25 @@ def evaluate(case):
     import wntr
     warnings.simplefilter('ignore')
     wn = build(case)
-    d1 = wntr.network.to_dict(wn)
-    r1, s1 = controls_view(wn)
     tmp = _scratch()
     f1, f2, f3 = (os.path.join(tmp, n) for n in ('c12_a.inp', 'c12_b.inp', 'c12_c.inp'))
+    pre = case.get('prewrite')
+    if pre:
+        # history: the same model object was written before, in another flow unit and with the other quality mass unit;
+        # then the options were set to what the case says.  Nothing of the earlier write may stick (the writer object is
+        # cached on the model).
+        ho, qo = wn.options.hydraulic, wn.options.quality
+        keep = (ho.inpfile_units, qo.inpfile_units)
+        try:
+            if str(qo.parameter).upper() == 'CHEMICAL':
+                qo.inpfile_units = 'ug/L' if str(qo.inpfile_units).lower().startswith('mg') else 'mg/L'
+            wntr.network.write_inpfile(wn, os.path.join(tmp, 'c12_pre.inp'), units=pre['units'], version=case['version'])
+        except Exception as ex:
+            return [(exc_bucket(ex, 'raises/prewrite'), 'an earlier write_inpfile of the same model raised %r' % (ex,))], 'prewrite'
+        finally:
+            ho.inpfile_units, qo.inpfile_units = keep
+    d1 = wntr.network.to_dict(wn)
+    r1, s1 = controls_view(wn)
     ctxt = 'units=%s via %s, version=%s' % (case['units'], case['units_via'], case['version'])
 
     def write(model, path, first):
